@@ -288,3 +288,28 @@ Proof.
     unfold is_open, first_denom in *. cbn [h_state h_transfer h_amount]. rewrite Ho in *. exact Hlive. }
   rewrite H1, H2, H3. reflexivity.
 Qed.
+
+(** ** after a parameter change (MsgUpdateParams): states the chain can be in — every parameter-independent clause
+    of the invariant holds, the new parameters pass validation — whose export validates and whose import PANICS
+    (known finding, clause 7 of the check; harness: corpus/C12/htlc-params-*.jsonl):
+    [pc_dropped]: the asset was dropped from the parameters, its supply record is still stored;
+    [pc_inactive]: the asset was deactivated while an incoming transfer of 50 is open;
+    [pc_cut]: the limit was cut to 1 with a current supply of 5000 *)
+Definition pc_asset (active : bool) (limit : Z) : asset := mkAsset 0 limit false 0 0 active 3 1 1 100 50 34560.
+Definition pc_sup (inc cur : Z) : supply := mkSupply (0, inc) (0, 0) (0, cur) (0, 0) 0.
+Definition pc_htlt : htlc := mkHtlc 0 3 0 5 5 [(0, 50)] 0 0 1700000000 79 0 0 true 1.
+Definition pc_dropped : state := mkState [] [] [] [(0, pc_sup 0 0)] None.
+Definition pc_inactive : state := mkState [pc_asset false 1000] [(0, pc_htlt)] [((79, 0), tt)] [(0, pc_sup 50 0)] None.
+Definition pc_cut : state := mkState [pc_asset true 1] [] [] [(0, pc_sup 0 5000)] None.
+
+Lemma htlc_import_total_refuted_after_param_change_lemma :
+  Forall (fun s => invb_core s = true /\ params_cover s = false /\ validate true (export s) = true /\ import true (export s) = None)
+         [pc_dropped; pc_inactive; pc_cut].
+Proof. repeat constructor; vm_compute; reflexivity. Qed.
+
+(** the same three states before the change (asset present, active, limit 10000) satisfy the whole invariant *)
+Lemma htlc_param_change_witnesses_reachable_before :
+  invb true (mkState [pc_asset true 10000] [] [] [(0, pc_sup 0 0)] None) = true
+  /\ invb true (mkState [pc_asset true 1000] [(0, pc_htlt)] [((79, 0), tt)] [(0, pc_sup 50 0)] None) = true
+  /\ invb true (mkState [pc_asset true 10000] [] [] [(0, pc_sup 0 5000)] None) = true.
+Proof. repeat split; vm_compute; reflexivity. Qed.
